@@ -73,7 +73,15 @@ func ClearTextPassword(validate func(ctx context.Context, database, username, pa
 		}
 
 		if !valid {
-			return ctx, ErrorCode(writer, pgerror.WithCode(errors.New("invalid username/password"), codes.InvalidPassword))
+			// NOTE: the rejection is reported to the client and returned, a nil
+			// error would be interpreted as a successful authentication.
+			invalid := pgerror.WithCode(errors.New("invalid username/password"), codes.InvalidPassword)
+			err = ErrorCode(writer, invalid)
+			if err != nil {
+				return ctx, err
+			}
+
+			return ctx, invalid
 		}
 
 		return ctx, writeAuthType(writer, authOK)
